@@ -52,7 +52,9 @@ type kase struct {
 var transLists = [][]string{nil, {"lowercase"}, {"lowercase", "trim"}, {"lowercase", "trim", "removeWhitespace"}, {"trim"}, {"trim", "lowercase"},
 	{"urlDecode"}, {"urlDecode", "urlDecode"}, {"uppercase", "lowercase"},
 	// hexDecode fails on most of the values below (the value then stays as it was): what is shared must be that value, not the failed step's output
-	{"hexDecode"}, {"hexDecode", "lowercase"}}
+	{"hexDecode"}, {"hexDecode", "lowercase"},
+	// two lists that part only at the fourth position (prefix bookkeeping of sibling lists must not be shared)
+	{"lowercase", "trim", "removeWhitespace", "uppercase"}, {"lowercase", "trim", "removeWhitespace", "urlDecode"}}
 
 var kinds = []ruleT{
 	{Target: "ARGS_GET", Kind: "plain"},
